@@ -330,7 +330,15 @@ class Laws(Suite):
                    ["L", "1.", D, None], ["L", "0.5", D, None], ["L", ".5", D, None], ["L", "-1", I, None], ["L", "-1.0", D, None],
                    ["L", "2", I, None], ["L", "10", I, None], ["L", "9.99", D, None], ["L", "-0", D, None], ["L", "0", I, None],
                    ["L", "+1.10", D, None], ["L", "1.1", D, None], ["L", "true", XSDP + "boolean", None], ["L", "1", None, None],
-                   ["I", "1"]]
+                   ["I", "1"], ["L", "1e0", D, None], ["L", "1E2", D, None], ["L", "15e-1", D, None], ["L", "1.5", D, None],
+                   ["L", "100", I, None], ["L", "-1.0e+0", D, None], ["L", "1e", D, None],
+                   # the integer subtypes: one value in several datatypes (ties across datatypes), bounds, ill-typed neighbours
+                   ["L", "1", XSDP + "int", None], ["L", "01", XSDP + "long", None], ["L", "1", XSDP + "short", None],
+                   ["L", "1", XSDP + "byte", None], ["L", "1", XSDP + "nonNegativeInteger", None],
+                   ["L", "1", XSDP + "positiveInteger", None], ["L", "-1", XSDP + "negativeInteger", None],
+                   ["L", "0", XSDP + "nonPositiveInteger", None], ["L", "127", XSDP + "byte", None], ["L", "128", XSDP + "byte", None],
+                   ["L", "2", XSDP + "int", None], ["L", "2147483648", XSDP + "int", None], ["L", "-1", XSDP + "nonNegativeInteger", None],
+                   ["L", "3", XSDP + "unsignedInt", None], ["L", "1", XSDP + "unsignedByte", None]]
             return self.make_case(rng.sample(mix, rng.choice([3, 4, 5, 6])))
         if rng.random() < 0.3:
             # a cluster: 3-5 literals of one datatype family (half of the time a date/time family)
@@ -851,8 +859,10 @@ ASSUMPTIONS = [
     "text read back by from_n3 / Turtle is the literal that default constructor builds (the term itself unless built with normalize=False)",
     "rdflib.DAWG_LITERAL_COLLATION is False and rdflib.NORMALIZE_LITERALS is True (defaults; reflected into Gen/Tables_term.v)",
     "ordering (<, >, <=, >=) of two literals is modelled for plain/xsd:string/language-tagged, true/false/1/0 xsd:boolean, "
-    "[+-]?[0-9]+ xsd:integer and [+-]?digits[.digits] xsd:decimal literals (integers and decimals compared exactly, together); "
-    "for all other pairs of literals (doubles/floats, the other integer subtypes, dates, times, durations, NaN/INF, decimal forms with exponent, ill-typed, custom datatypes) the order is "
+    "[+-]?[0-9]+ literals of xsd:integer and of its subtypes byte/short/int/long/(non)Negative-/(non)PositiveInteger inside the bounds of "
+    "their well-formedness checkers (table reflected from the source), and [+-]?digits[.digits]([eE][+-]?digits)? xsd:decimal literals - all numbers "
+    "compared exactly, together; "
+    "for all other pairs of literals (doubles/floats, the four xsd:unsigned* types - their IRIs sort after xsd:string, which makes < cyclic across datatypes -, dates, times, durations, NaN/INF, ill-typed incl. out-of-range integers, custom datatypes) the order is "
     "checked by laws only: < and > never raise, inside one datatype < is irreflexive/asymmetric/transitive, sorted() is "
     "reproducible, ties are Literal.eq",
     "well-formed terms (wf_term, named in the theorem statements): strings of code points; a literal has a language tag the "
